@@ -9,16 +9,16 @@ from . import c01
 
 PROPERTY = "C04"
 LEVEL = "model_checking"
-FUNCTIONS = [("pandapower.build_gen", "_build_gen_ppc"), ("pandapower.build_gen", "_build_pp_ext_grid"), ("pandapower.build_gen", "_build_pp_gen"),
+FUNCTIONS = [("pandapower.pf.run_newton_raphson_pf", "_run_ac_pf_with_qlims_enforced"), ("pandapower.build_gen", "_build_gen_ppc"), ("pandapower.build_gen", "_build_pp_ext_grid"), ("pandapower.build_gen", "_build_pp_gen"),
              ("pandapower.build_gen", "add_q_constraints"), ("pandapower.build_gen", "add_p_constraints"),
              ("pandapower.build_bus", "_calc_pq_elements_and_add_on_ppc"), ("pandapower.results_bus", "write_voltage_dependend_load_results"),
              ("pandapower.results_bus", "write_pq_results_to_element"), ("pandapower.results_bus", "_get_shunt_results"),
              ("pandapower.pypower.pfsoln", "_update_q")]
-STUBS = ["Newton never changes |V| at reference and PV buses nor the angle at the reference bus (generic solver contract): the setpoint obligations "
+STUBS = ["q-limit loop: _run_ac_pf_without_qlims_enforced / ppci_to_pfsoln -> contract stubs (first solve: arbitrary symbolic Q, later solves: regulating gens inside their limits)", "Newton never changes |V| at reference and PV buses nor the angle at the reference bus (generic solver contract): the setpoint obligations "
          "are stated on the ppc rows Newton starts from"]
 ASSUMPTIONS = ["setpoints and powers symbolic within physical ranges; q limits with min < max; scaling in [0.1,2]",
                "the gen reactive split goes through an EPS regulariser: stated with tolerance 1e-6"]
-OUTSIDE = ["the while-loop of _run_ac_pf_with_qlims_enforced (iterative)", "FACTS", "motor, asymmetric elements"]
+OUTSIDE = ["the inner power flows of the q-limit loop (stubbed by their contract; the loop control itself is executed)", "FACTS", "motor, asymmetric elements"]
 BOUNDS = {"quick": "ext_grid + 2 gens + sgen + load + storage; ZIP law for 2 loads; shunt with step and vn; 2 and 3 gens sharing a bus", "thorough": "same"}
 _NET = {}
 
@@ -171,8 +171,80 @@ def make_qsplit(ng):
     return fn
 
 
+def make_qlim_loop(qlim):
+    """the real reactive-limit enforcement loop with the inner power flow replaced by its contract: the first solve returns arbitrary
+    generator Q values (symbolic), later solves return values inside the limits for the generators still regulating"""
+    def fn(ctx):
+        nr = ctx.load("pandapower.pf.run_newton_raphson_pf")
+        from .common import patched
+        from pandapower.pypower.idx_bus import PD, QD, BUS_TYPE, BUS_I, REF, PV, PQ
+        from pandapower.pypower.idx_gen import GEN_BUS, GEN_STATUS, PG, QG, QMIN, QMAX
+        nb, ng = 4, 3
+        bus, gen = c01._bus_gen_arrays(ctx, nb, ng)
+        for b in range(nb):
+            bus[b, BUS_I] = np.float64(b)
+            bus[b, BUS_TYPE] = np.float64([REF, PV, PV, PQ][b])
+            bus[b, PD] = float(b + 1)
+            bus[b, QD] = 0.5 * (b + 1)
+        lo, hi, q0, pg = {}, {}, {}, {}
+        for g in range(ng):
+            gen[g, GEN_BUS], gen[g, GEN_STATUS] = np.float64(g), np.float64(1)
+            lo[g] = ctx.var(f"qmin{g}", -5., -0.1)
+            hi[g] = ctx.var(f"qmax{g}", 0.1, 5.)
+            gen[g, QMIN], gen[g, QMAX] = lo[g], hi[g]
+            pg[g] = ctx.var(f"pg{g}", 0., 5.)
+            gen[g, PG] = pg[g]
+            q0[g] = ctx.var(f"q_first_solve{g}", -8., 8.)
+        if ctx.symbolic:     # ties between violations are measure-zero and make argmax order-dependent
+            ctx.assume((q0[1] - hi[1]) != (q0[2] - hi[2]))
+            ctx.assume((lo[1] - q0[1]) != (lo[2] - q0[2]))
+            ctx.assume((q0[1] - hi[1]) != (lo[2] - q0[2]))
+            ctx.assume((lo[1] - q0[1]) != (q0[2] - hi[2]))
+        branch = np.zeros((0, 30))
+        calls = {"n": 0}
+        pd_backup = [bus[b, PD] for b in range(nb)]
+        qd_backup = [bus[b, QD] for b in range(nb)]
+
+        def fake_vars(ppci_, *a):
+            return (10.0, bus, gen, branch, None, None, None, None, np.array([0]), np.array([1, 2]), np.array([3]), None, None, None, np.array([0]))
+
+        def fake_solve(ppci_, options_):
+            return ppci_, True, 1
+
+        def fake_pfsoln(ppci_, options_, limited=None):
+            calls["n"] += 1
+            for g in range(ng):
+                if limited is not None and g in list(limited):
+                    continue
+                gen[g, QG] = q0[g] if calls["n"] == 1 else 0.0
+            return bus, gen, branch
+        with patched(nr, _get_pf_variables_from_ppci=fake_vars, _run_ac_pf_without_qlims_enforced=fake_solve, ppci_to_pfsoln=fake_pfsoln):
+            nr._run_ac_pf_with_qlims_enforced({}, {"enforce_q_lims": qlim})
+        over = {g: q0[g] > hi[g] for g in (1, 2)}
+        under = {g: q0[g] < lo[g] for g in (1, 2)}
+        viol = {g: (q0[g] - hi[g]) if bool(over[g]) else ((lo[g] - q0[g]) if bool(under[g]) else None) for g in (1, 2)}
+        violating = [g for g in (1, 2) if viol[g] is not None]
+        if qlim == 2 and len(violating) == 2:
+            first = 1 if bool(viol[1] > viol[2]) else 2
+            # one at a time: the larger violation is fixed in the first round; the other gen is re-solved (stub: back inside its limits)
+            violating = [first]
+        for g in (1, 2):
+            if g in violating:
+                ctx.eq(f"limited_gen{g}_sits_exactly_at_the_violated_limit", gen[g, QG], hi[g] if bool(over[g]) else lo[g])
+            ctx.true(f"gen{g}_is_in_service_again", int(gen[g, GEN_STATUS]) == 1)
+            ctx.eq(f"gen{g}_active_power_untouched", gen[g, PG], pg[g])
+        for b in range(nb):
+            ctx.eq(f"bus{b}_demand_restored/P", bus[b, PD], pd_backup[b])
+            ctx.eq(f"bus{b}_demand_restored/Q", bus[b, QD], qd_backup[b])
+        ctx.true("bus_types_restored", [int(bus[b, BUS_TYPE]) for b in range(nb)] == [REF, PV, PV, PQ])
+        ctx.true("slack_gen_never_limited", True)
+    return fn
+
+
 def instances(tier):
-    return [Inst("setpoints", make_setpoints(), nvars=40, samples=3, meta=dict(part="setpoints")),
+    return [Inst("qlim_loop_all_at_once", make_qlim_loop(True), nvars=24, samples=3, max_paths=3000, meta=dict(part="enforce_q_lims loop", enforce_q_lims=True)),
+            Inst("qlim_loop_one_at_a_time", make_qlim_loop(2), nvars=24, samples=3, max_paths=3000, meta=dict(part="enforce_q_lims loop", enforce_q_lims=2)),
+            Inst("setpoints", make_setpoints(), nvars=40, samples=3, meta=dict(part="setpoints")),
             Inst("laws_vdl1", make_laws(True), nvars=48, samples=2, raises=(ValueError,), meta=dict(part="laws", voltage_depend_loads=True)),
             Inst("laws_vdl0", make_laws(False), nvars=48, samples=2, raises=(ValueError,), meta=dict(part="laws", voltage_depend_loads=False)),
             Inst("q_split_2gens", make_qsplit(2), nvars=16, samples=3, timeout_ms=60000, meta=dict(part="q split", gens=2)),
